@@ -53,6 +53,12 @@ structure World where
 def World.init (pool : Range) (n : Nat) : World :=
   { gen := IpGen.new pool, clients := List.replicate n none, net := [], offered := [], owner := [] }
 
+/-- `self.ip_generator.write().unwrap().fetch_ip().unwrap()` on an exhausted pool -/
+def exhaustedPanic : String := "panic:unwrap:DhcpServer::demux.fetch_ip"
+def errBadClient : String := "bad-client"
+def errBadIndex : String := "bad-index"
+def errNothingToRelease : String := "nothing-to-release"
+
 /-- `DhcpServer::demux` on a message of type `typ` / `your_ip = y` arriving on client `c`'s
     session: new generator, replies, ghost updates -/
 def serverDemux (w : World) (c : Nat) (typ : MsgType) (y : Nat) : Except String World :=
@@ -60,7 +66,7 @@ def serverDemux (w : World) (c : Nat) (typ : MsgType) (y : Nat) : Except String 
   | .discover =>
     match fetchIp w.gen with
     | .error e => .error e
-    | .ok (_, none) => .error "panic:unwrap:DhcpServer::demux.fetch_ip"
+    | .ok (_, none) => .error exhaustedPanic
     | .ok (g', some ip) =>
       .ok { w with gen := g', net := w.net ++ [⟨false, c, .offer, ip⟩],
                    offered := (c, ip) :: w.offered, owner := (ip, c, false) :: w.owner }
@@ -94,28 +100,28 @@ deriving Repr
 def World.step (w : World) : Act → Except String World
   | .start c =>
     if c < w.clients.length then .ok { w with net := w.net ++ [⟨true, c, .discover, 0⟩] }
-    else .error "bad-client"
+    else .error errBadClient
   | .deliver i =>
     match w.net[i]? with
-    | none => .error "bad-index"
+    | none => .error errBadIndex
     | some p =>
       let w1 := { w with net := w.net.eraseIdx i }
       if p.toServer then serverDemux w1 p.client p.typ p.yourIp
       else .ok (clientDemux w1 p.client p.typ p.yourIp)
   | .dup i =>
     match w.net[i]? with
-    | none => .error "bad-index"
+    | none => .error errBadIndex
     | some p => .ok { w with net := w.net ++ [p] }
   | .drop i =>
     match w.net[i]? with
-    | none => .error "bad-index"
+    | none => .error errBadIndex
     | some _ => .ok { w with net := w.net.eraseIdx i }
   | .release c =>
     match w.clients[c]? with
     | some (some a) =>
       .ok { w with clients := w.clients.set c none, net := w.net ++ [⟨true, c, .release, a⟩],
                    owner := w.owner.map (fun e => if e.1 == a then (e.1, e.2.1, true) else e) }
-    | _ => .error "nothing-to-release"
+    | _ => .error errNothingToRelease
 
 /-! ### driver helpers (text form) -/
 
